@@ -136,6 +136,7 @@ def run(ctx):
     tier = ctx.tier
     dump = os.path.join(ctx.workdir, "e1", "states")
     ctx.run_tlc("e1", "Clip", "Clip_%s.cfg" % tier, dump=dump, coverage=True)
+    ctx.run_tlc("e1.liveness", "Clip", "Clip_live.cfg")          # under weak fairness every instance reaches accept / reject (no input loops)
     n = 0
     classes = {"accept": 0, "reject": 0, "free": 0}
     for st in vlib.read_dump(dump + ".dump", only={"in", "pc", "abs", "iter"}, prefilter='pc = "'):
